@@ -8,8 +8,15 @@ def ast_functions(run, keys, tier, rt_quick=8, rt_thorough=60, search_n=150, sig
     both = tier != 'quick'
     reps = runner.prove_functions(keys, timeout_s=timeout_s, both=both)
     n_rt = rt_quick if tier == 'quick' else rt_thorough
-    rts = runner.runtime_functions(keys, n_rt, run.seed)
-    need_search = [k for k in keys if not reps[k].proved and not _property_fails(rts[k])]
+    REG = runner.load_contracts()
+    rt_keys = [k for k in keys if not getattr(REG.by_key[k], 'no_runtime', False)]
+    rts = runner.runtime_functions(rt_keys, n_rt, run.seed)
+    for k in keys:
+        if k not in rts:
+            rts[k] = {'key': k, 'accepted': 1, 'runs': 0, 'fails': [], 'inconclusive': 0, 'outcomes': {}, 'error': None, 'seconds': 0.0, 'sample': None,
+                      'skipped': True}
+            run.note('no run-time cross-check for %s (%s)' % (k, REG.by_key[k].no_runtime))
+    need_search = [k for k in keys if not reps[k].proved and not _property_fails(rts[k]) and not rts[k].get('skipped')]
     search = runner.runtime_functions(need_search, search_n if tier == 'quick' else 4 * search_n, run.seed + 1) if need_search else {}
     rt_total = {'evaluations': 0, 'accepted': 0, 'functions': len(keys), 'inconclusive_clauses': 0, 'disagreements': 0}
     for k in keys:
